@@ -280,11 +280,14 @@ def spline_free(u):
             assert(mu@[k]@ == hs@[k]@ / l@[k]@ && 0real <= mu@[k]@ <= 0.5real);
             assert(z@[k]@ == (alphas@[k]@ - hs@[k - 1]@ * z@[k - 1]@) / l@[k]@);
             assert(l@[k]@ == 2real * (xs@[k + 1]@ - xs@[k - 1]@) - hs@[k - 1]@ * mu@[k - 1]@);
-            // ... and the rows that were already there
-            assert forall|j: int| 1 <= j < k implies #[trigger] l@[j]@ == 2real * (xs@[j + 1]@ - xs@[j - 1]@) - hs@[j - 1]@ * mu@[j - 1]@
+            // ... and the rows that were already there: every row j < k + 1, case by case
+            assert forall|j: int| 1 <= j < k + 1 implies #[trigger] l@[j]@ == 2real * (xs@[j + 1]@ - xs@[j - 1]@) - hs@[j - 1]@ * mu@[j - 1]@
                 && l@[j]@ > 0real && mu@[j]@ == hs@[j]@ / l@[j]@ && 0real <= mu@[j]@ <= 0.5real && z@[j]@ == (alphas@[j]@ - hs@[j - 1]@ * z@[j - 1]@) / l@[j]@ by {
-                assert(l@[j] == vx_l0[j] && mu@[j] == vx_mu0[j] && mu@[j - 1] == vx_mu0[j - 1] && z@[j] == vx_z0[j] && z@[j - 1] == vx_z0[j - 1]);
-                assert(vx_l0[j]@ == 2real * (xs@[j + 1]@ - xs@[j - 1]@) - hs@[j - 1]@ * vx_mu0[j - 1]@);
+                if j < k {
+                    assert(l@[j] == vx_l0[j] && mu@[j] == vx_mu0[j] && mu@[j - 1] == vx_mu0[j - 1] && z@[j] == vx_z0[j] && z@[j - 1] == vx_z0[j - 1]);
+                    assert(vx_l0[j]@ == 2real * (xs@[j + 1]@ - xs@[j - 1]@) - hs@[j - 1]@ * vx_mu0[j - 1]@);
+                    assert(vx_l0[j]@ > 0real && vx_mu0[j]@ == hs@[j]@ / vx_l0[j]@ && 0real <= vx_mu0[j]@ <= 0.5real && vx_z0[j]@ == (alphas@[j]@ - hs@[j - 1]@ * vx_z0[j - 1]@) / vx_l0[j]@);
+                }
             }
             assert(sweep_rel(xs@, hs@, alphas@, l@, mu@, z@, k + 1));
         }
@@ -363,11 +366,14 @@ pub open spec fn clamped_spline_ok(s: CubicSpline, xs: Seq<R>, ys: Seq<R>, f0: r
             assert(mu@[k]@ == hs@[k]@ / l@[k]@ && 0real <= mu@[k]@ <= 0.5real);
             assert(z@[k]@ == (alphas@[k]@ - hs@[k - 1]@ * z@[k - 1]@) / l@[k]@);
             assert(l@[k]@ == 2real * (xs@[k + 1]@ - xs@[k - 1]@) - hs@[k - 1]@ * mu@[k - 1]@);
-            // ... and the rows that were already there
-            assert forall|j: int| 1 <= j < k implies #[trigger] l@[j]@ == 2real * (xs@[j + 1]@ - xs@[j - 1]@) - hs@[j - 1]@ * mu@[j - 1]@
+            // ... and the rows that were already there: every row j < k + 1, case by case
+            assert forall|j: int| 1 <= j < k + 1 implies #[trigger] l@[j]@ == 2real * (xs@[j + 1]@ - xs@[j - 1]@) - hs@[j - 1]@ * mu@[j - 1]@
                 && l@[j]@ > 0real && mu@[j]@ == hs@[j]@ / l@[j]@ && 0real <= mu@[j]@ <= 0.5real && z@[j]@ == (alphas@[j]@ - hs@[j - 1]@ * z@[j - 1]@) / l@[j]@ by {
-                assert(l@[j] == vx_l0[j] && mu@[j] == vx_mu0[j] && mu@[j - 1] == vx_mu0[j - 1] && z@[j] == vx_z0[j] && z@[j - 1] == vx_z0[j - 1]);
-                assert(vx_l0[j]@ == 2real * (xs@[j + 1]@ - xs@[j - 1]@) - hs@[j - 1]@ * vx_mu0[j - 1]@);
+                if j < k {
+                    assert(l@[j] == vx_l0[j] && mu@[j] == vx_mu0[j] && mu@[j - 1] == vx_mu0[j - 1] && z@[j] == vx_z0[j] && z@[j - 1] == vx_z0[j - 1]);
+                    assert(vx_l0[j]@ == 2real * (xs@[j + 1]@ - xs@[j - 1]@) - hs@[j - 1]@ * vx_mu0[j - 1]@);
+                    assert(vx_l0[j]@ > 0real && vx_mu0[j]@ == hs@[j]@ / vx_l0[j]@ && 0real <= vx_mu0[j]@ <= 0.5real && vx_z0[j]@ == (alphas@[j]@ - hs@[j - 1]@ * vx_z0[j - 1]@) / vx_l0[j]@);
+                }
             }
             assert(sweep_rel(xs@, hs@, alphas@, l@, mu@, z@, k + 1));
         }
